@@ -20,7 +20,9 @@ def corpus():
         "pool.handles 2 3",
         "run prop=C04 mode=constant rate=20/50ms dur=400 conc=4 body=150 expectfull=1",
         "run prop=C04 mode=users conc=6 dur=300 body=20 expectfull=1",
-        "run prop=C04 mode=users conc=4 dur=300 body=20 expectfull=1 combine=1",           # handles reach the components of a combined scenario
+        "run prop=C04 mode=users conc=4 dur=300 body=20 expectfull=1 combine=1",
+        "run prop=C04 mode=constant rate=20/50ms dur=400 conc=4 body=150 maxit=50 expectfull=1",             # a limit above the concurrency does not add workers
+        "run prop=C04 mode=staged stages=0s:30,2s:30 freq=50 dist=none dur=400 conc=5 body=150 maxit=1000 expectfull=1",           # handles reach the components of a combined scenario
         "run prop=C04 mode=constant rate=12/50ms dur=300 conc=3 body=100 expectfull=1 combine=1",
     ] + __import__("vlib.props._plan", fromlist=["x"]).cli_corpus_for("C04")
 
